@@ -427,7 +427,7 @@ fn run_chain(ctx: &mut Ctx, pshape: (usize, usize), root_kind: u8, path: &[Step]
     let orig = buf.clone();
     let mut writes: Vec<(usize, u32)> = vec![];
     let mut verdict = None;
-    let labels = ["TooDee", "TooDeeView::new", "TooDeeViewMut::new"];
+    let labels = ["TooDee", "TooDeeView::new", "TooDeeViewMut::new", "TooDeeView::from(view_mut)"];
     let now: Vec<u32>;
     {
         let mut leaf = Leaf { writes: &mut writes, single, verdict: &mut verdict, label: labels[root_kind as usize] };
@@ -442,6 +442,15 @@ fn run_chain(ctx: &mut Ctx, pshape: (usize, usize), root_kind: u8, path: &[Step]
                 let root = Pos { base: buf.as_ptr() as usize, stride: pc, start: (0, 0), size: if pc == 0 { (0, 0) } else { (pc, pr) } };
                 let v = TooDeeView::new(pc, pr, &buf);
                 descend_v(ctx, &v, root, path, &mut leaf);
+                now = buf.clone();
+            }
+            3 => {
+                // a read-only view obtained by converting a mutable view over a longer slice
+                let root = Pos { base: buf.as_ptr() as usize, stride: pc, start: (0, 0), size: if pc == 0 { (0, 0) } else { (pc, pr) } };
+                {
+                    let v: TooDeeView<'_, u32> = TooDeeView::from(TooDeeViewMut::new(pc, pr, &mut buf));
+                    descend_v(ctx, &v, root, path, &mut leaf);
+                }
                 now = buf.clone();
             }
             _ => {
@@ -486,7 +495,7 @@ pub fn run_c03(ctx: &mut Ctx) {
     let n3 = nsel(ctx, 0, 1, 2, 3, 3);
     // depth 1: every (start,end) pair, valid and invalid
     for shape in shapes(n1) {
-        for (root_kind, m) in [(0u8, false), (0, true), (1, false), (2, false), (2, true)] {
+        for (root_kind, m) in [(0u8, false), (0, true), (1, false), (2, false), (2, true), (3, false)] {
             if !ctx.case(|| format!("C03 depth1 root={} mut={} shape={}x{}", root_kind, m, shape.0, shape.1)) {
                 if ctx.done() {
                     return;
@@ -521,7 +530,7 @@ pub fn run_c03(ctx: &mut Ctx) {
         }
     }
     // depth 2: every valid non-empty outer window x every inner pair
-    let chains2: [(u8, [bool; 2]); 5] = [(0, [false, false]), (0, [true, false]), (0, [true, true]), (1, [false, false]), (2, [true, true])];
+    let chains2: [(u8, [bool; 2]); 6] = [(0, [false, false]), (0, [true, false]), (0, [true, true]), (1, [false, false]), (2, [true, true]), (3, [false, false])];
     for shape in shapes(n2) {
         if shape.0 == 0 {
             continue;
